@@ -164,7 +164,7 @@ theorem ticker_no_panic {now d j : Int} (hd : 0 < d) (hj0 : 0 ≤ j) (hj : j < d
 example : (create 0 5 0 0).isSome = true ∧ (create 0 5 4 8).isSome = true ∧
     ((create 0 5 0 0).bind fun s => tstep s (.reset 1 0 0)).isSome = true := by decide
 
-/-- the D20 configurations: `d = MaxInt64, jitter = MaxInt64 - 1` (2·jitter + 1 does not fit into an
+/-- the D21 configurations: `d = MaxInt64, jitter = MaxInt64 - 1` (2·jitter + 1 does not fit into an
 int64: the old code panicked in `rand.Int63n`) with the largest draw, and `d = MaxInt64,
 jitter = 2^61` with a draw for which `d - jitter + r` exceeds MaxInt64 (the old code armed the timer
 with a negative duration): created without panic, the timer is due `MaxInt64` ns from now
